@@ -9,7 +9,8 @@
 (*           (monotone in the value), or -1 where t has no fragment        *)
 (*   col[t]  the colour word t's fragment shader returns                   *)
 (*   nfr[t]  number of fragments generated for t (sum of span lengths)     *)
-(*   npc[t]  number of clipped pieces of t, nvt: vertices submitted        *)
+(*   npc[t]  number of clipped pieces of t; ndeg[t] of them have (all but) *)
+(*           zero on-screen area, so that their facing is undefined        *)
 (*   face[t] on-screen winding: 1 = back-facing, 0 = front-facing          *)
 (*   far[t]  <<lo, hi>>: bounds of t's distance from the eye               *)
 (*                                                                         *)
@@ -103,7 +104,12 @@ Allowed(sc, s, e) ==
       ties == IF ctx.kind = "fb" /\ ctx.test # 0 THEN TiePix(sc, ctx, e.ord) ELSE {}
       planes == exactOrder \/ OrderFree(ctx)
   IN /\ planes => \A p \in 1..sc.np : p \in ties \/ (e.c[p] = s2.c[p] /\ e.z[p] = s2.z[p])
-     /\ \A i \in 1..6 : e.st[i] = s2.st[i]
+     \* pieces of zero on-screen area have no facing: culling may keep or drop them
+     /\ LET slackLo == IF ctx.cull = 0 THEN 0 ELSE SeqSum(sc.ndeg, SelectSeq(e.ord, LAMBDA t : Drawn(sc, ctx, t)))
+            slackHi == IF ctx.cull = 0 THEN 0 ELSE SeqSum(sc.ndeg, SelectSeq(e.ord, LAMBDA t : ~Drawn(sc, ctx, t)))
+        IN /\ \A i \in {1, 2, 4, 6} : e.st[i] = s2.st[i]
+           /\ e.st[3] >= s2.st[3] - slackLo /\ e.st[3] <= s2.st[3] + slackHi
+           /\ e.st[5] = (e.st[3] - s.st[3]) * 3 + s.st[5]
      /\ (exactOrder /\ ties = {}) => e.st[7] = s2.st[7]
      \* whatever the order: a pixel holds its previous content or that of a fragment covering it
      /\ \A p \in 1..sc.np :
